@@ -17,10 +17,11 @@ let () =
       Stdlib.Printf.printf "M\t%s\t%s\n" code (if PureFns.types_Message_inbounds (z code) then "1" else "0")
     | "P" :: h :: _ ->
       (* P hex -> class maxdepth   of the traversal model Safe/Depth.preorder *)
-      let (o, md) = Depth.preorder (Conv.bytes_of_hex h) in
-      let rec nat_to_int n = match n with Datatypes.O -> 0 | Datatypes.S k -> 1 + nat_to_int k in
+            let rec nat_to_int n = match n with Datatypes.O -> 0 | Datatypes.S k -> 1 + nat_to_int k in
+      let rec nat_of_int n = if n <= 0 then Datatypes.O else Datatypes.S (nat_of_int (n - 1)) in
+      let (o, md) = Depth.preorder (nat_of_int 4096) (Conv.bytes_of_hex h) in
       let cls = match o with
         | Depth.Ok _ -> "ok" | Depth.ErrEOF -> "eof" | Depth.ErrInvalid -> "invalid"
-        | Depth.ErrUnsupported -> "unsupported" | Depth.OutOfFuel -> "fuel" in
+        | Depth.ErrRecurse -> "recurse" | Depth.ErrUnsupported -> "unsupported" | Depth.OutOfFuel -> "fuel" in
       Stdlib.Printf.printf "P\t%s\t%s\t%d\n" h cls (nat_to_int md)
     | _ -> Stdlib.Printf.printf "?\t%s\n" line)
